@@ -1396,7 +1396,7 @@ def report(ctx, bad, limit=6):
         if key in seen or len(seen) >= limit:
             continue
         seen.add(key)
-        replay = {"case": {k: c[k] for k in c if k in ("ctx", "arms", "v", "vars", "src", "model", "stmts", "kind")},
+        replay = {"case": {k: c[k] for k in c if k in ("ctx", "arms", "v", "vars", "src", "model", "stmts", "kind", "t", "tys", "steps")},
                   "program": c.get("src") or c.get("stmts"), "implementation": show_match(c.get("impl")) if isinstance(c.get("impl"), tuple) else c.get("impl"),
                   "coq_model": show_match(c.get("model_says")) if isinstance(c.get("model_says"), tuple) else c.get("model_says"),
                   "oracle": c.get("oracle"), "what": why}
@@ -1470,9 +1470,9 @@ HIST_VALUES = [NULL, I(0), I(1), I(5), I(7), I(-3), I(2 ** 70), R(1, 2), F(1.5),
 OPS = {0: "+", 1: "-", 2: "*", 3: "max", 4: "min", 5: "append"}
 
 
-def hist_value_for(rng, t):
+def hist_value_for(rng, t, stray=0.2):
     """mostly a value of type t"""
-    if rng.random() < 0.2:
+    if rng.random() < stray:
         return rng.choice(HIST_VALUES)
     good = []
     for v in HIST_VALUES:
@@ -1490,7 +1490,7 @@ def gen_hist(rng, nsteps):
     steps = []  # (source, model, writes)
     for x in names:
         t = tys[x]
-        v = hist_value_for(rng, t if t is not None else "anything")
+        v = hist_value_for(rng, t if t is not None else "anything", stray=0.04)
         if t is None:
             steps.append((f"zz{x} := {v_src(v)}", f"declare seq 0 1 ann var {x} none list 1 {v_model(v)}", []))
             # `zz1 := v` parses as the one-element sequence? no: a single annotated item is the item itself
@@ -1613,6 +1613,43 @@ def evaluate_hists(ctx, hists, runner):
     return bad, stats
 
 
+# ----------------------------------------------------------------------------- conversions land in their type
+CONV_TYPES = ["int", "rational", "float", "number", "str", "list", "bytes", "vector", "dict", "stream", "type", ("struct", 1)]
+
+
+def gen_conv_cases():
+    cases = []
+    for t in CONV_TYPES:
+        for v in POOL:
+            cases.append(dict(kind="conv", v=v, t=t, model=None,
+                              src=f"zzv := {v_src(v)}; zzr := {ty_src(t)}(zzv); zzr is {ty_src(t)}"))
+    return cases
+
+
+def evaluate_conv(ctx, cases):
+    """in-language only (the conversion functions are not modelled): when T(v) returns, `T(v) is T`"""
+    res = common.run_prog([[PRELUDE, c["src"]] for c in cases], timeout=10.0)
+    bad, stats = [], {"returned": 0, "raised": 0, "skipped_F16": 0}
+    for c, r in zip(cases, res):
+        rr = r["results"][-1] if "results" in r else r
+        st = rr.get("status")
+        c["impl"] = "ok " + rr["val"] if st == "ok" else st
+        v = c["v"]
+        if c["t"] == "int" and v[0] == "flt" and (is_nan_bits(v[1]) or abs(bits2f(v[1])) == float("inf")):
+            stats["skipped_F16"] += 1  # int(inf) returns the float: C07's finding F16, not C12's
+            continue
+        if st in ("panic", "hang", "abort", "badjson", "parse"):
+            bad.append(("property", c, r, f"conversion did not return normally: {st}"))
+        elif st == "ok":
+            stats["returned"] += 1
+            c["oracle"] = "ok I1"
+            if rr["val"] != "I1":
+                bad.append(("property", c, r, "T(v) returned a value that is not of type T"))
+        else:
+            stats["raised"] += 1
+    return bad, stats
+
+
 # ----------------------------------------------------------------------------- run
 def run(ctx):
     runner = common.standard_prelude(ctx)
@@ -1622,6 +1659,9 @@ def run(ctx):
     is_cases = gen_is_cases()
     bad2, n_is = evaluate_is(ctx, is_cases, runner)
     report(ctx, bad2)
+    conv_cases = gen_conv_cases()
+    bad4, cstats = evaluate_conv(ctx, conv_cases)
+    report(ctx, bad4)
     hists = [gen_hist(ctx.rng, ctx.rng.randrange(5, 16)) for _ in range(ctx.n(320, 3000))]
     bad3, hstats = evaluate_hists(ctx, hists, runner)
     report(ctx, bad3)
@@ -1638,12 +1678,12 @@ def run(ctx):
     samples = [{"program": c["src"], "implementation": show_match(c["impl"]), "coq_model": show_match(c["model_says"])}
                for c in (ok_cases[::max(1, len(ok_cases) // 8)][:8] + [c for c in cases if c.get("impl", ("x",))[0] == "err"][:4])]
     ctx.coverage.update({
-        "evaluations": len(cases) + n_is + hstats["statements"],
+        "evaluations": len(cases) + n_is + hstats["statements"] + len(conv_cases),
         "distinct_nontrivial": len(distinct) + sum(1 for c in is_cases if c["kind"] == "is"),
         "rule": "pattern cases: distinct by (context, pattern(s), value) and non-trivial = some arm has nesting depth >= 1 (a sequence, annotation, "
                 "alternative, operator or struct pattern) and the implementation returned a match or raised; plus the full (value x type) `is` table",
         "samples": samples,
-        "pattern_cases": len(cases), "is_cases": n_is, "histories": len(hists), "history_stats": hstats,
+        "pattern_cases": len(cases), "is_cases": n_is, "conversion_cases": len(conv_cases), "conversion_stats": cstats, "histories": len(hists), "history_stats": hstats,
         "history_sample": [{"statements": [x for x in h["stmts"][1::2]], "implementation": h["impl"][:6]} for h in hists[:2]],
         "impl_outcomes": stats, "by_context": {k: sum(1 for c in cases if c["ctx"] == k) for k in sorted({c["ctx"] for c in cases})},
         "by_pattern_kind": dict(sorted(kinds.items())),
@@ -1663,6 +1703,10 @@ def replay(ctx, rep):
     c = retuple(c)
     if c.get("kind") in ("is", "is_type_of", "is_null", "typeof"):
         bad, _ = evaluate_is(ctx, [c], runner)
+    elif c.get("kind") == "conv":
+        bad, _ = evaluate_conv(ctx, [c])
+    elif c.get("kind") == "hist":
+        bad, _ = evaluate_hists(ctx, [c], runner)
     else:
         bad, _ = evaluate_matches(ctx, [c], runner)
     report(ctx, bad)
@@ -1673,7 +1717,8 @@ def replay(ctx, rep):
 def retuple(x):
     """JSON turned tuples into lists; values and patterns are tagged tuples whose payload lists stay lists"""
     if isinstance(x, dict):
-        return {k: (retuple_node(v) if k in ("v",) else [retuple_node(a) for a in v] if k == "arms" else v) for k, v in x.items()}
+        return {k: (retuple_node(v) if k in ("v",) else [retuple_node(a) for a in v] if k == "arms"
+                    else tuple(v) if k == "t" and isinstance(v, list) else v) for k, v in x.items()}
     return x
 
 
